@@ -13,6 +13,7 @@ import (
 	"crypto/sha256"
 	"fmt"
 	"math/big"
+	"os"
 	"strconv"
 	"strings"
 
@@ -32,6 +33,7 @@ import (
 	"github.com/elastos/Elastos.ELA/core/types/outputpayload"
 	"github.com/elastos/Elastos.ELA/core/types/payload"
 	"github.com/elastos/Elastos.ELA/crypto"
+	"github.com/elastos/Elastos.ELA/database"
 	"github.com/elastos/Elastos.ELA/dpos/state"
 )
 
@@ -322,6 +324,8 @@ func exec(t []string) string {
 			msg = err.InnerError().Error()
 		}
 		return "err " + errName(msg)
+	case "wflow":
+		return execFlow(t)
 	case "pay":
 		w := parseTx(t)
 		tx, _ := w.build()
@@ -350,6 +354,163 @@ func exec(t []string) string {
 
 var lastBlk []*wtx
 
+// ---------------------------------------------------------------- histories through the real processors
+
+// realStore answers IsSidechainTxHashDuplicate from the real Tx3 index of a real ffldb, exactly as
+// ChainStore.IsSidechainTxHashDuplicate does (GetFFLDB().IsTx3Exist).
+type realStore struct {
+	blockchain.IChainStore
+	ffl *blockchain.ChainStoreFFLDB
+}
+
+func (s *realStore) IsSidechainTxHashDuplicate(h common.Uint256) bool { return s.ffl.IsTx3Exist(&h) }
+
+var flowOnChain map[int]bool // oracle bookkeeping: hashes recorded by blocks still connected
+
+func flowTx(spec string) *wtx {
+	p := strings.Split(spec, ":")
+	pver := atoi(p[0][1:])
+	var hs []int
+	for _, x := range split(p[1], "+") {
+		hs = append(hs, atoi(x))
+	}
+	w := &wtx{pver: pver, refs: []int{1}}
+	if pver == 0 {
+		w.ph = hs
+	} else {
+		w.oh = hs
+	}
+	return w
+}
+
+func runProcessors(ffl *blockchain.ChainStoreFFLDB, ps []database.TXProcessor) {
+	err := ffl.Update(func(dbTx database.Tx) error { // the loop of ChainStoreFFLDB.SaveBlock / RollbackBlock
+		for _, p := range ps {
+			if err := p(dbTx); err != nil {
+				return err
+			}
+		}
+		return nil
+	})
+	if err != nil {
+		panic("harness: processors: " + err.Error())
+	}
+}
+
+func probe(st *realStore, pver int, h int) bool {
+	cfg := *config.GetDefaultParams()
+	cfg.SchnorrStartHeight = 100
+	cfg.CRConfiguration.CRClaimDPOSNodeStartHeight = 10
+	cfg.DPoSConfiguration.DPOSNodeCrossChainHeight = 20
+	cfg.CrossChainUTXORestrictionHeight = 30
+	cfg.CRConfiguration.MemberCount = 2
+	cfg.DPoSConfiguration.NormalArbitratorsCount = 2
+	cfg.CRConfiguration.CRAgreementCount = 2
+	two := []arb{{5, true}, {7, true}}
+	var w *wtx
+	height := 25
+	as := &arbStub{arbs: two, cross: two, cc: 2, maj: 1}
+	if pver == 1 {
+		w = &wtx{pver: 1, oh: []int{h}, refs: []int{1}, progs: []prog{{kind: "M", ok: true, m: 3, n: 2, keys: []int{7, 5}}}}
+	} else {
+		height = 5
+		as = &arbStub{cross: two, cc: 2, maj: 1}
+		w = &wtx{pver: 0, ph: []int{h}, refs: []int{1}, progs: []prog{{kind: "M", ok: true, m: 2, n: 2, keys: []int{7, 5}}}}
+	}
+	blockchain.DefaultLedger = &blockchain.Ledger{Arbitrators: as, Store: st}
+	tx, refs := w.build()
+	params := &transaction2.TransactionParameters{Transaction: tx, BlockHeight: uint32(height), Config: &cfg}
+	err, _ := transaction2.VerifC33SpecialContextCheck(tx, params, refs)
+	if err == nil {
+		return false
+	}
+	msg := err.Error()
+	if err.InnerError() != nil {
+		msg = err.InnerError().Error()
+	}
+	if errName(msg) != "dup-hash" {
+		panic("harness: probe withdrawal refused for another reason: " + msg)
+	}
+	return true
+}
+
+func setStr(f func(int) bool) string {
+	var xs []string
+	for x := 1; x <= 8; x++ {
+		if f(x) {
+			xs = append(xs, strconv.Itoa(x))
+		}
+	}
+	if len(xs) == 0 {
+		return "-"
+	}
+	return strings.Join(xs, ",")
+}
+
+func execFlow(t []string) string {
+	dir, err := os.MkdirTemp("", "c33-tx3-")
+	if err != nil {
+		panic("harness: " + err.Error())
+	}
+	defer os.RemoveAll(dir)
+	st, err := blockchain.NewChainStoreFFLDB(dir, &config.DefaultParams)
+	if err != nil {
+		panic("harness: open ffldb: " + err.Error())
+	}
+	ffl := st.(*blockchain.ChainStoreFFLDB)
+	defer ffl.Close()
+	var stack []*types.Block
+	var stackW [][]*wtx
+	for _, g := range strings.Split(strings.Join(t[1:], " "), " / ") {
+		f := strings.Fields(g)
+		switch f[0] {
+		case "S":
+			var txs []interfaces.Transaction
+			var ws []*wtx
+			for _, spec := range f[1:] {
+				w := flowTx(spec)
+				tx, _ := w.build()
+				txs = append(txs, tx)
+				ws = append(ws, w)
+			}
+			b := &types.Block{Transactions: txs}
+			ps, err := blockchain.GetSaveProcessorsFromBlock(b)
+			if err != nil {
+				panic("harness: save processors: " + err.Error())
+			}
+			runProcessors(ffl, ps)
+			stack = append(stack, b)
+			stackW = append(stackW, ws)
+		case "R":
+			if len(stack) == 0 {
+				continue
+			}
+			b := stack[len(stack)-1]
+			stack, stackW = stack[:len(stack)-1], stackW[:len(stackW)-1]
+			ps, err := blockchain.GetRollbackProcessorsFromBlock(b)
+			if err != nil {
+				panic("harness: rollback processors: " + err.Error())
+			}
+			runProcessors(ffl, ps)
+		default:
+			panic("harness: bad flow step " + f[0])
+		}
+	}
+	flowOnChain = map[int]bool{}
+	for _, ws := range stackW {
+		for _, w := range ws {
+			for _, x := range recorded(w) {
+				flowOnChain[x] = true
+			}
+		}
+	}
+	rs := &realStore{ffl: ffl}
+	return fmt.Sprintf("dup=%s v1=%s v0=%s", setStr(func(x int) bool { return ffl.IsTx3Exist(ptr(hashOf(x))) }),
+		setStr(func(x int) bool { return probe(rs, 1, x) }), setStr(func(x int) bool { return probe(rs, 0, x) }))
+}
+
+func ptr(h common.Uint256) *common.Uint256 { return &h }
+
 // ---------------------------------------------------------------- oracle
 
 func recorded(w *wtx) []int {
@@ -375,10 +536,26 @@ func hasDup(xs []int) bool {
 
 func oracle(t []string, out string) *hx.Violation {
 	bad := func(kind, detail string) *hx.Violation { return &hx.Violation{Kind: kind, Detail: detail} }
-	if out != "ok" {
+	if out != "ok" && t[0] != "wflow" {
 		return nil
 	}
 	switch t[0] {
+	case "wflow":
+		for _, name := range []string{"dup", "v1", "v0"} {
+			got := map[string]bool{}
+			for _, x := range split(fieldOut(out, name), ",") {
+				got[x] = true
+			}
+			for x := range flowOnChain {
+				if !got[strconv.Itoa(x)] {
+					what := "is not recorded in the Tx3 index"
+					if name != "dup" {
+						what = "is not refused in a new " + strings.ToUpper(name) + " withdrawal"
+					}
+					return bad("withdraw-reuse", fmt.Sprintf("side-chain hash %d of a connected withdrawal %s", x, what))
+				}
+			}
+		}
 	case "pay":
 		if hasDup(recorded(last.tx)) {
 			return bad("withdraw-output-hash-duplicates", fmt.Sprintf("payload version %d withdrawal recording a side-chain hash twice passes CheckTransactionPayload", last.tx.pver))
@@ -477,6 +654,15 @@ func oracle(t []string, out string) *hx.Violation {
 		}
 	}
 	return nil
+}
+
+func fieldOut(out, name string) string {
+	for _, f := range strings.Fields(out) {
+		if strings.HasPrefix(f, name+"=") {
+			return f[len(name)+1:]
+		}
+	}
+	return ""
 }
 
 func nontrivial(t []string, out string) bool { return true }
